@@ -169,11 +169,24 @@ def verus_job(ctx, res):
     f.replace("let _ = fs::create_dir_all(root.join(FRAGMENT_DIR));", "vp_create_dir_all_fragments(root);", rule="O14")
     f.sub(r"fs::read_to_string\(root\.join\(MANIFEST\)\)\s*\.ok\(\)\s*\.and_then\(\|x\| toml::from_str::<Manifest>\(&x\)\.ok\(\)\)",
           "vp_read_manifest(root, Tracked(fs))", count=1, rule="O14")
-    # O11: `let v = E.is_some_and(|x| B);` desugared to the std definition `match E { Some(x) => B, None => false }` (only if the
-    # construct is there; Verus has no spec for is_some_and and a closure would need a hand-written contract)
-    f.sub_opt(r"=\s*([\w\s\.\(\)&]+?)\s*\.is_some_and\(\|(\w+)\| ([^;\n]*?)\);", r"= match \1 { Some(\2) => \3, None => false };", rule="O11 is_some_and desugared")
-    # O13: every `<path>.global_key == global_key` (String == &str), wherever the body compares the key
-    f.sub(r"\b([\w\.]+)\.global_key == global_key\b", r"vp_str_eq(&\1.global_key, global_key)", count=None, rule="O13")
+    # O11: `let v = E.is_some_and(|x| B);` desugared to the std definition `match E { Some(x) => B, None => false }` (only if the construct
+    # is there; Verus has no spec for is_some_and and a closure would need a hand-written contract).
+    # O13: every `<path>.global_key == global_key` (String == &str) becomes vp_str_eq(..), wherever the body compares the key.
+    # Edits are positional on the original text, so a comparison inside a desugared closure is rewritten together with it.
+    O13 = r"\b([\w\.]+)\.global_key == global_key\b"
+    O13_NEW = r"vp_str_eq(&\1.global_key, global_key)"
+    spans, n13 = [], 0
+    for m in re.finditer(r"=\s*([\w\s\.\(\)&]+?)\s*\.is_some_and\(\|(\w+)\| ([^;\n]*?)\);", f.orig):
+        new, k = re.subn(O13, O13_NEW, m.expand(r"= match \1 { Some(\2) => \3, None => false };"))
+        n13 += k
+        f.replace(m.group(0), new, rule="O11 is_some_and desugared (+O13 inside)")
+        spans.append(m.span())
+    outside = {m.group(0) for m in re.finditer(O13, f.orig) if not any(a <= m.start() < b for a, b in spans)}
+    for old in sorted(outside):
+        f.replace(old, re.sub(O13, O13_NEW, old), count=f.orig.count(old), rule="O13")
+        n13 += 1
+    if n13 == 0:
+        raise ExtractError("Store::open_with_lock: rule O13 found no `<path>.global_key == global_key`")
     f.sub(r"log::debug!\([^;]*\);", "", count=1, rule="E6 log::debug! statements dropped")
     f.replace("root.to_path_buf()", "vp_to_path_buf(root)", rule="O14")
     f.spec("""    requires laws(),
